@@ -139,6 +139,11 @@ fn evaluate_rtrim(args: &[Value]) -> Value {
 fn evaluate_substring(args: &[Value]) -> Value {
     if let Some(Value::String(s)) = args.first() {
         if let Some(Value::Int(start)) = args.get(1) {
+            // A negative length is not a valid argument (`as usize` would turn it into a huge number and
+            // `start + len` below would overflow).
+            if matches!(args.get(2), Some(Value::Int(l)) if *l < 0) {
+                return Value::Null;
+            }
             let start = *start as usize;
             let len = if let Some(Value::Int(l)) = args.get(2) {
                 Some(*l as usize)
@@ -151,7 +156,7 @@ fn evaluate_substring(args: &[Value]) -> Value {
                 Value::String(String::new())
             } else {
                 let end = if let Some(l) = len {
-                    (start + l).min(chars.len())
+                    start.saturating_add(l).min(chars.len())
                 } else {
                     chars.len()
                 };
